@@ -113,6 +113,10 @@ def worker(task):
                                    lambda x, y: pretty_print_notebook_diff("a", "b", x, y, cfg()), [a, d], False))
         except Exception:
             pass
+    elif kind == "dmodel":
+        from . import decmodel
+        base, plain = payload
+        evs.append(frame_event(tid + "-applydm", "apply_decisions", apply_decisions, [base, decmodel.py_decisions(plain)]))
     else:
         b, l, r, strat = payload
         args = mergedrv.strategy_args(*strat)
@@ -155,6 +159,14 @@ def run():
                 tasks.append(("triple", "m%s-s%d" % (name, j), (b, l, rr, st)))
         else:
             tasks.append(("triple", "m" + name, (b, l, rr, strategies[k % len(strategies)])))
+    # decision lists of spec/DecisionModel.tla (a well-formed diff cut into decisions: several decisions of one path that
+    # patch the same item / line, pushed paths, clear_all ...): the applier must leave the list and the base as they were
+    from . import decmodel
+    from .encode import dec
+    dm = decmodel.run_models(chk, kinds=(("lists", 3), ("strings", 3)) if chk.quick else None)
+    for kind, cases in sorted(dm.items()):
+        for k, c in enumerate(decmodel.sample(cases, r, 1500 if chk.quick else 20000)):
+            tasks.append(("dmodel", "dm-%s-%d" % (kind, k), (dec(c["base"]), [decmodel.dec_decision(e) for e in c["D"]])))
     ctx = multiprocessing.get_context("fork")
     with ctx.Pool(common.NCPU) as pool:
         res = pool.map(worker, tasks, chunksize=8)
